@@ -145,13 +145,17 @@ def failing_slot(fk, i, ignore):
         t = task(('command', 'k%dterm' % i, '', 1015), loop=[lit('x'), lit('y')], when=('eq', ('var', ['item']), ('str', 'x')))
     elif fk == 14:
         t = task(('debugvar', ['undefined_u']))         # a template error raised INSIDE the module: an ordinary, ignorable failure
+    elif fk == 15:
+        t = task(('command', 'k%dcw' % i, 'o%d' % i, 0), changed_when=('var', ['undefined_u']))      # the module runs, then changed_when cannot be evaluated
+    elif fk == 16:
+        t = task(('command', 'k%dcwl' % i, '', 0), changed_when=('var', ['undefined_u']), loop=[lit('x'), lit('y')])
     else:
         t = task(('include', 'missing.rh'))
     t["ignore"] = ignore
     return t
 
 
-NFAIL = 15
+NFAIL = 17
 TRUTH_LITS = [('list', 0), ('list', 2), ('map', 0), ('map', 1), ('num', 0), ('num', 3), ('bool', False), ('bool', True), ('str', 'x')]
 
 
@@ -640,6 +644,15 @@ def c17(run, replay=None):
     outerf = dict(tasks=[probe("outer.start"), task(('include', 'empty.rh')), probe("outer.end")])
     cases.append(dict(files={"main.rh": dict(tasks=[INIT, task(('include', 'empty.rh')), probe("after.empty"), task(('include', 'outer.rh')), task(('command', 'kend', '', 0))]),
                              "empty.rh": emptyf, "outer.rh": outerf}, desc=dict(tree="include of an empty file")))
+    # included files with an invalid entry of every NON-MAPPING / unreadable-value kind (a dangling `-`, a string, a list,
+    # an unreadable when, a non-boolean check_mode), first / last entry, the include ignored or not: none of their tasks runs
+    for kind in ("null_task", "sequence_task", "non_mapping", "when_list_with_null", "check_mode_yes", "int_key", "dash_ignore_errors"):
+        for pos in (0, 2):
+            incx = dict(tasks=[task(('debug', lit('<<incx.1>>'))), task(('command', 'kincx', '', 0))], invalid=(pos, kind))
+            for ign in (False, True):
+                it = task(('include', 'incx.rh'))
+                it["ignore"] = ign
+                cases.append(dict(files={"main.rh": dict(tasks=[INIT, probe("before"), it, probe("after")]), "incx.rh": incx}, desc=dict(tree="include of a file with an invalid entry", kind=kind, position=pos, ignored=ign)))
     j = judge(run, cases, "include semantics")
     # the script's arguments are the same inside an included file (any depth, looped) as in the main script
     sc_main = ("#!/usr/bin/env rash\n- debug:\n    msg: \"main {{ rash.args | join(',') }}\"\n- include: ROOT/one.rh\n- include: ROOT/one.rh\n  loop: [x]\n"
